@@ -15,8 +15,6 @@ import (
 	"time"
 	"unicode/utf8"
 
-	"go.uber.org/zap"
-
 	"github.com/metal-toolbox/audito-maldito/ingesters/namedpipe"
 	"github.com/metal-toolbox/audito-maldito/ingesters/syslog"
 	"github.com/metal-toolbox/audito-maldito/internal/health"
@@ -204,6 +202,8 @@ func c06ThroughPipe(run *mc.Run, s sets, pid string) int {
 	_ = os.MkdirAll(dir, 0o755)
 	var all []Exp
 	forms(s, func(x Exp) { all = append(all, x) })
+	all = append(all, extraLong()...) // lines longer than one / two read buffers, in the middle of ordinary ones
+	all = append(all, all[:3]...)
 	const batch = 400
 	jobs := make(chan []Exp, 32)
 	var wg sync.WaitGroup
@@ -300,6 +300,21 @@ func replayOne(run *mc.Run, line, pid string) int {
 
 // ---------------------------------------------------------------- C07
 
+// extraLong are accepted-certificate lines whose key ID (printed by sshd with an unbounded %s) makes the line
+// longer than one and than two 4096-byte read buffers.
+func extraLong() []Exp {
+	s := fieldSets(false)
+	s.users, s.addrs, s.ports, s.keytypes, s.fps, s.serials, s.cas = s.users[:1], s.addrs[:1], s.ports[:1], s.keytypes[:1], s.fps[:1], s.serials[:1], s.cas[:1]
+	s.keyids = []string{"kid-" + strings.Repeat("K", 4300) + "-end", "kid-" + strings.Repeat("L", 9100) + "-end"}
+	var out []Exp
+	forms(s, func(x Exp) {
+		if len(x.Line) > 4096 {
+			out = append(out, x)
+		}
+	})
+	return out
+}
+
 // extraSpaced are lines whose message contains internal runs of blanks.
 func extraSpaced() []Exp {
 	var out []Exp
@@ -362,7 +377,7 @@ func throughPipe(dir string, lines []string) (o obs) {
 	}
 	defer os.Remove(path)
 	r := newRig(len(lines) + 8)
-	ing := syslog.NewSyslogIngester(path, r.proc, namedpipe.NewNamedPipeIngester(zap.NewNop().Sugar(), health.NewHealth()))
+	ing := syslog.NewSyslogIngester(path, r.proc, namedpipe.NewNamedPipeIngester(mc.DebugLogger(), health.NewHealth()))
 	ctx, cancel := context.WithCancel(context.Background())
 	defer cancel()
 	before := r.counters()
@@ -481,6 +496,9 @@ func runC07(run *mc.Run) int {
 	for _, p := range pidTokens[:2] {
 		forms(s, func(x Exp) { add(x, p) })
 		for _, x := range extraSpaced() {
+			add(x, p)
+		}
+		for _, x := range extraLong() {
 			add(x, p)
 		}
 	}
